@@ -188,6 +188,17 @@ def dict_fault(r, root):
     if not paths:
         return None
     path, kind = r.choice(paths)
+    repeated = [(p_, k_) for p_, k_ in paths if k_ == "list" and p_ and p_[-1] in ("processing", "formatoption", "compfilter", "include", "points")]
+    if repeated and r.random() < 0.3:
+        # a faulty item APPENDED to a repeatable keyword after loading: its index lies beyond the occurrences the parser recorded
+        path, kind = r.choice(repeated)
+        cur = root
+        for p_ in path[:-1]:
+            cur = cur[p_]
+        old = cur[path[-1]]
+        if isinstance(old, list):
+            old.append(r.choice([5, 2.5, True]))
+            return {"path": [str(x) for x in path], "old": "(one item fewer)", "new": "a wrong-typed item appended: " + repr(old[-1])}
     cur = root
     for p_ in path[:-1]:
         cur = cur[p_]
